@@ -336,9 +336,19 @@ class Report:
         return 1 if self.violations else 0
 
 
-def lean_gate(report, theorems):
-    """Common proof gate: forbid sorry etc., lake build, audit axioms of the property theorems.
+def lean_gate(report, theorems, uses_tables=False):
+    """Common proof gate: regenerate tables from the source (T1), forbid sorry etc., lake build, audit axioms.
     Returns True if the proof side is intact. Records violations (no-failing-input-found) otherwise."""
+    import extract_tables
+    try:
+        with Lock(os.path.join(SCRATCH_ROOT, ".lake.lock")):
+            extract_tables.main()
+        report.coverage["tables_regenerated_from_source"] = True
+    except extract_tables.ExtractError as e:
+        report.coverage["tables_regenerated_from_source"] = False
+        if uses_tables:
+            report.violation("extract", {"broken": "T1 table extraction from constants.h/OutputToFont.cpp failed: %s" % e},
+                             no_failing_input=True)
     hits = lean_grep_forbidden()
     ok, out = lake_build()
     res, text = ({}, "")
